@@ -47,7 +47,7 @@ def preview_closure(ctx, r, root, bindings, label):
     return visited, effects
 
 
-def run(ctx):
+def _run_structural(ctx):
     idx = ctx.index
     res = ctx.resolver
     roots = res.command_roots()
@@ -277,3 +277,31 @@ def run(ctx):
                  f"_STATUS_VISUALS lacks {sorted(members - have)}: printing such a target raises KeyError", "src/gwf/plugins/status.py:1")
     except Exception as exc:
         r4.info("src/gwf/plugins/status.py::_STATUS_VISUALS", f"not evaluable: {exc}")
+
+
+def run(ctx):
+    """Structural (effect closure, shared decision procedure, filters) first; `gwf status` and `gwf run [--dry-run]` evaluated on the witness
+    project decide where the closure analysis cannot follow the code (closures, classes, dispatch tables instead of partial())."""
+    from ..loader import AnalysisError
+    from .evalhelpers import cached_witness, status_command_witness, run_command_witness
+    wst = cached_witness(ctx, "status-cmd", status_command_witness)
+    wrun = cached_witness(ctx, "run", run_command_witness)
+    n0 = len(ctx.rules)
+    try:
+        _run_structural(ctx)
+    except (AnalysisError, Exception) as exc:
+        if any(w[2] is not None or w[1] for w in (wst, wrun)):
+            raise
+        r0 = ctx.rule("R0", "the effect-closure analysis cannot follow this shape; decided by the evaluated commands")
+        r0.info("src/gwf/plugins", f"structural analysis stopped: {type(exc).__name__}: {str(exc)[:120]}")
+        for r in ctx.rules[n0:]:
+            r.min_instances = 0
+    rules = ctx.rules[n0:]
+    r_st = ctx.rule("R5", "`gwf status` evaluated on the witness project: 5 histories x 7 filter/endpoint/pattern views + formats show restrictions of one table and change nothing")
+    from .evalhelpers import report_witness
+    report_witness(r_st, "src/gwf/plugins/status.py::status::witness-project", "src/gwf/plugins/status.py:1", wst, "restrictions of the one table; no submit, cancel, hash record, delete or write")
+    if not wst[1] and not wrun[1] and wst[2] is None and wrun[2] is None:
+        both = (wst[0] + wrun[0], [], None)
+        ctx.reconcile(rules, lambda c: any(k in c for k in ("plugins/status.py", "plugins/run.py", "scheduling.py::submit_workflow", "scheduling.py::get_status_map",
+                                                             "scheduling.py::_submit")),
+                      both, "src/gwf/plugins::status+run", "src/gwf/plugins/status.py:1")
